@@ -26,6 +26,35 @@ def c20_lookup(type_names, dialect, column_label='data_type'):
     return out
 
 
+def c20_lookup_sql(type_names, dialect):
+    """Like c20_lookup, but the catalogue query the implementation builds is EXECUTED: against an SQLite connection that holds a table
+    information_schema.columns (and all_tab_columns for Oracle) with the row of table T / column C and rows whose names differ from them only in
+    letter case (other objects of the same catalogue)."""
+    import sqlite3
+    import pandas as pd
+    import morph_kgc.data_source.relational_db as R
+    out = []
+    orig_conn = R._relational_db_connection
+    try:
+        for t in type_names:
+            con = sqlite3.connect(':memory:')
+            con.execute("ATTACH DATABASE ':memory:' AS information_schema")
+            con.execute('CREATE TABLE information_schema.columns (table_name TEXT, column_name TEXT, data_type TEXT)')
+            con.execute('CREATE TABLE all_tab_columns (TABLE_NAME TEXT, COLUMN_NAME TEXT, DATA_TYPE TEXT)')
+            rows = [('T', 'C', t), ('t', 'C', 'CLOB'), ('T', 'c', 'BLOB'), ('T2', 'C', 'DATE'), ('T', 'C2', 'BOOLEAN')]
+            con.executemany('INSERT INTO information_schema.columns VALUES (?,?,?)', rows)
+            con.executemany('INSERT INTO all_tab_columns VALUES (?,?,?)', rows)
+            R._relational_db_connection = lambda config, source_name, _c=con: (_c, dialect)
+            try:
+                out.append({'v': R._get_column_table_datatype(None, 'S', 'T', 'C')})
+            except Exception as e:
+                out.append(_bucket(e))
+            con.close()
+    finally:
+        R._relational_db_connection = orig_conn
+    return out
+
+
 def mat_set(config, cwd=None, catalogue=None):
     """morph_kgc.materialize_set on a config string/path. catalogue: optional {(table, column): type name} used to answer
     the datatype-catalogue query (so that inference can be exercised end-to-end on SQLite data)."""
